@@ -73,12 +73,35 @@ def impl_encode(cls, inst):
     return ("ok", buf.getvalue())
 
 
-def impl_decode(cls, data: bytes):
+class Hang(BaseException):
+    pass
+
+
+def _alarm(signum, frame):
+    raise Hang()
+
+
+def impl_decode(cls, data: bytes, limit_s: float = 20.0):
+    """Decode with a watchdog: a decode that does not finish within limit_s is reported as the
+    outcome Other:Hang (never a permitted outcome) instead of blocking the check."""
+    import signal
+    import threading
     from kio.serial import entity_reader
 
     buf = io.BytesIO(data)
+    watchdog = threading.current_thread() is threading.main_thread()
     try:
-        obj = entity_reader(cls)(buf)
+        if watchdog:
+            old = signal.signal(signal.SIGALRM, _alarm)
+            signal.setitimer(signal.ITIMER_REAL, limit_s)
+        try:
+            obj = entity_reader(cls)(buf)
+        finally:
+            if watchdog:
+                signal.setitimer(signal.ITIMER_REAL, 0)
+                signal.signal(signal.SIGALRM, old)
+    except Hang:
+        return ("err", "Other:Hang")
     except Exception as e:  # noqa
         return ("err", err_name(e))
     if buf.tell() > len(data):
